@@ -346,10 +346,11 @@ type outcome struct {
 	lateW    int
 	panicked interface{}
 	// OnStatusError callback observations
-	cbCalls  int
-	cbStatus int
-	cbReason string
-	cbBytes  []byte
+	cbCalls    int
+	cbStatus   int
+	cbReason   string
+	cbBytes    []byte
+	urlChanged string // non-empty: how Dialer.Upgrade modified the caller's *url.URL
 	// OnHeader callback observations
 	vetoAt       int
 	hdrCalls     []kv // arguments of every invocation (copied inside the callback)
@@ -487,6 +488,33 @@ func upgradeSeeded(c *dcfg, respond func(key string) []byte, sizes []int, eofWit
 	if err != nil {
 		panic("generator produced an unparsable URL: " + c.URL)
 	}
+	return upgradeURL(c, u, respond, sizes, eofWithData, reseed)
+}
+
+// urlDiff compares a URL with the copy taken before it was handed to the dialer.
+func urlDiff(before url.URL, beforeUser *url.Userinfo, beforeStr string, u *url.URL) string {
+	if *u != before {
+		return fmt.Sprintf("fields changed: %+v, was %+v", *u, before)
+	}
+	if (u.User == nil) != (beforeUser == nil) || (u.User != nil && *u.User != *beforeUser) {
+		return "userinfo changed"
+	}
+	if u.String() != beforeStr {
+		return fmt.Sprintf("String() = %q, was %q", u.String(), beforeStr)
+	}
+	return ""
+}
+
+// upgradeURL is upgradeSeeded on a *url.URL owned by the caller; it also
+// records whether the dialer modified that URL.
+func upgradeURL(c *dcfg, u *url.URL, respond func(key string) []byte, sizes []int, eofWithData, reseed bool) (o outcome) {
+	before, beforeStr := *u, u.String()
+	var beforeUser *url.Userinfo
+	if u.User != nil {
+		cp := *u.User
+		beforeUser = &cp
+	}
+	defer func() { o.urlChanged = urlDiff(before, beforeUser, beforeStr, u) }()
 	peer := respgen.NewPeer(nil, sizes)
 	peer.EOFWithData = eofWithData
 	peer.Respond = func(req []byte) []byte {
@@ -558,6 +586,9 @@ func judge(o *outcome, r *respgen.Response, cfg respgen.Config, cl respgen.Class
 	}
 	if o.err != nil && o.brNonNil {
 		return fmt.Sprintf("error %v returned together with a non-nil *bufio.Reader", o.err)
+	}
+	if o.urlChanged != "" {
+		return "Dialer.Upgrade modified the caller's *url.URL: " + o.urlChanged
 	}
 	if msg := judgeStatusError(o); msg != "" {
 		return msg
@@ -887,15 +918,26 @@ func TestRequest(t *testing.T) {
 		}
 		valid := respgen.Valid()
 		var keys []string
-		for i := 0; i < 2; i++ {
+		shared, _ := url.ParseRequestURI(c.URL)
+		for i := 0; i < 3; i++ {
 			// second dial of the same case: the global source moves on, no re-seeding
-			o := upgradeSeeded(&c, valid.Render, nil, false, i == 0)
+			// All dials of the case share one *url.URL, as a caller's would; u
+			// (parsed separately) stays the reference. The third dial uses the
+			// same URL with a dialer that has no Host override.
+			cc := c
+			if i == 2 {
+				cc.Host = ""
+			}
+			o := upgradeURL(&cc, shared, valid.Render, nil, false, i == 0)
 			if o.panicked != nil {
 				t.Fatalf("Dialer.Upgrade panicked: %v", o.panicked)
 			}
-			key, msg := checkRequest(o.written, u, &c)
+			if o.urlChanged != "" {
+				t.Fatalf("Dialer.Upgrade modified the caller's *url.URL: %s\nconfig: %s", o.urlChanged, hx.JSON(cc))
+			}
+			key, msg := checkRequest(o.written, u, &cc)
 			if msg != "" {
-				t.Fatalf("%s\nconfig: %s\nrequest: %q", msg, hx.JSON(c), o.written)
+				t.Fatalf("dial %d on the same URL: %s\nconfig: %s\nrequest: %q", i+1, msg, hx.JSON(cc), o.written)
 			}
 			if key != o.key {
 				t.Fatalf("harness: key extraction disagrees with net/http: %q vs %q", o.key, key)
@@ -905,7 +947,7 @@ func TestRequest(t *testing.T) {
 			}
 			keys = append(keys, key)
 		}
-		if keys[0] == keys[1] {
+		if keys[0] == keys[1] || keys[1] == keys[2] || keys[0] == keys[2] {
 			t.Fatalf("two consecutive dials sent the same key %q\nconfig: %s", keys[0], hx.JSON(c))
 		}
 	})
@@ -2020,4 +2062,48 @@ func TestOnHeaderVeto(t *testing.T) {
 	}
 	hx.EvalN(n)
 	hx.Part("OnHeader: 5 header layouts x veto position (none, record-only, 1..5) x line end x 3 chunkings", int64(n), true)
+}
+
+// Bytes before the status line: the first line of the response is then not a
+// status line, whatever follows.
+func TestLeadingBytes(t *testing.T) {
+	if !hx.Mine(6) {
+		return
+	}
+	cfg := respgen.Config{Protocols: []string{"chat"}, Extensions: []respgen.Ext{{Name: "x-a"}}}
+	c := dcfg{URL: "ws://example.org/", Req: cfg, Seed: 13, OnStatus: true, VetoAt: -1}
+	n := 0
+	for _, prefix := range respgen.Prefixes {
+		for variant := 0; variant < 3; variant++ {
+			for _, lf := range []bool{false, true} {
+				for _, sizes := range [][]int{nil, {1}, {2}, {len(prefix), 1 << 20}} {
+					r := respgen.Valid()
+					r.Prefix = prefix
+					r.Trailing = []byte{0x81, 0x00}
+					switch variant {
+					case 1:
+						r.Lines = append(r.Lines, respgen.Line{Name: "Sec-WebSocket-Protocol", Pre: " ", Value: "chat"}, respgen.Line{Name: "X-Extra", Pre: " ", Value: "1"})
+					case 2:
+						r.Status = "200"
+					}
+					if lf {
+						r.StatusLF, r.EndLF = true, true
+						for k := range r.Lines {
+							r.Lines[k].LF = true
+						}
+					}
+					n++
+					if cl := respgen.Classify(r, cfg); cl.Verdict != respgen.MustFail {
+						hx.Failf(t, prefix, "harness: prefix %q classified %v", prefix, cl.Verdict)
+						return
+					}
+					if !runFixed(t, &c, r, sizes) {
+						return
+					}
+				}
+			}
+		}
+	}
+	hx.EvalN(n)
+	hx.Part("bytes before the status line: prefixes x 3 responses x line end x 4 chunkings", int64(n), true)
 }
